@@ -46,7 +46,8 @@ RULE = (
     "that was given the same object), the same object assigned to both sides, maps given to the constructor, a "
     "pickle round trip of the workflow, keys of channels that only appear later; plus the exhaustive family of all "
     "maps over three keys x five targets and the family of all pairs of live edits x start maps x getter/held; "
-    "after EVERY op: ordered keys of wf.inputs/wf.outputs with the `is`-identity of each entry, the stored maps, "
+    "after EVERY op: ordered keys of wf.inputs/wf.outputs with the `is`-identity of each entry, the maps as the "
+    "getters return them (disabled marker / raw None distinguished), "
     "all channel values, the run's return dict; non-trivial = the panels changed at least 3 times and at least "
     "one map was accepted; distinct by canonical op list"
 )
